@@ -28,7 +28,7 @@ import (
 
 func TestMain(m *testing.M) {
 	stats.Init("C08")
-	stats.Rule("topology in {bus mesh, bus chain, bus chain with raw forwarding members, star tree} with 2-6 members over inproc (tcp/ipc/ws/tls+tcp sampled), one connection per linked pair, all planned links Attached on both ends before sending; each member sends 0-20 tagged messages (volumes below queue lengths), sequentially or concurrently. Also: forwarding raw BUS members run Device, a hand loop, or a loop re-sending each message twice through a Clone; a cooked BUS member may have READQ-LEN 1. Non-trivial: >=3 members; distinct by (kind, edges, raw set, per-member counts, concurrency)")
+	stats.Rule("topology in {bus mesh, bus chain, bus chain with raw forwarding members, star tree} with 2-6 members over inproc (tcp/ipc/ws/tls+tcp sampled), one connection per linked pair, all planned links Attached on both ends before sending; each member sends 0-20 tagged messages (volumes below queue lengths), sequentially or concurrently. Also: forwarding raw BUS members run Device, a hand loop, or a loop re-sending each message twice through a Clone; a cooked BUS member may have READQ-LEN 1. Non-trivial: >=3 members; distinct by (kind, edges, raw set, per-member counts, concurrency). Round 5: stalled member (READQ-LEN 1, never receives) in a STAR hub / STAR tree / BUS mesh with lock-step sender: all other members receive everything once, unchanged, in order")
 	rc := m.Run()
 	stats.Flush()
 	fixture.Cleanup()
